@@ -1,5 +1,6 @@
 import Convergen.Model.Method
 import Convergen.Model.Options
+import Convergen.Model.Runner
 import Convergen.Generated.Decisions
 /-!
 # Bridge: the model takes the same path as the Go code (decision skeletons)
@@ -326,5 +327,54 @@ theorem lookupManipulatorFunc_follows_source (env : Env) (sc : Scope) (name optN
       (try (cases env.isErrorType _ <;> simp)) <;>
       (try (have h2 : ¬ (ps.length + 1 + 1 < 2) := by omega
             simp [h2]))
+
+/-! ## `Generator.Generate` (what is printed and written, C15 / C18) -/
+
+/-- what the run does on each path of `Generate`; `content` is the unformatted text, `bytes` the
+formatted one, `e` / `o` the lines already on stderr / stdout -/
+def generateOn (cfg : Config) (w1 : World) (content bytes : String) (e o : List String) (label : String) : RunResult :=
+  match label with
+  | "return nil, err" => { exit := 1, stdout := o, stderr := e, world := w1 }
+  | "fmt.Println(); return nil, Errorf(error on optimizing imports of the generated code. %w)" =>
+    { exit := 1, stdout := o ++ [content], stderr := e, world := w1 }
+  | "return nil, Errorf(error on optimizing imports of the generated code. %w)" =>
+    { exit := 1, stdout := o, stderr := e, world := w1 }
+  | "fmt.Println(); return nil, Errorf(error on formatting the generated code. %w)" =>
+    { exit := 1, stdout := o ++ [content], stderr := e, world := w1 }
+  | "return nil, Errorf(error on formatting the generated code. %w)" =>
+    { exit := 1, stdout := o, stderr := e, world := w1 }
+  | "fmt.Println(); return formatted, nil" => { exit := 0, stdout := o ++ [bytes], stderr := e, world := w1 }
+  | "return formatted, nil" => { exit := 0, stdout := o, stderr := e, world := w1 }
+  | "err=os.WriteFile(); return nil, Errorf(error on writing to the file. %w)" =>
+    { exit := 1, stdout := o, stderr := e ++ ["error on writing to the file."], world := w1 }
+  | "err=os.WriteFile(); fmt.Println(); return formatted, nil" =>
+    { exit := 0, stdout := o ++ [bytes], stderr := e, world := w1.put cfg.output bytes }
+  | "err=os.WriteFile(); return formatted, nil" =>
+    { exit := 0, stdout := o, stderr := e, world := w1.put cfg.output bytes }
+  | _ => { exit := 2, stdout := [], stderr := ["Generate: unknown path"], world := w1 }
+
+/-- the front half failed (`generateContent` returns the error): nothing is printed or written -/
+theorem generate_error_follows_source (cfg : Config) (w1 : World) (e o : List String) (c1 c2 c3 c4 c5 : Bool) :
+    afterCore cfg (.error e o) w1 = generateOn cfg w1 "" "" e o (Generated.Decisions.generate true c1 c2 c3 c4 c5) := by
+  simp [afterCore, Generated.Decisions.generate, generateOn]
+
+/-- goimports or gofmt rejects the emitted text: with `-print` the unformatted text is shown, the
+output path is not touched — whichever of the two fails -/
+theorem generate_formatError_follows_source (cfg : Config) (w1 : World) (content : String) (e o : List String)
+    (c4 c5 : Bool) :
+    afterCore cfg (.formatError content e o) w1 =
+      generateOn cfg w1 content "" e o (Generated.Decisions.generate false true cfg.prints false c4 c5) ∧
+    afterCore cfg (.formatError content e o) w1 =
+      generateOn cfg w1 content "" e o (Generated.Decisions.generate false false cfg.prints true c4 c5) := by
+  cases hp : cfg.prints <;> simp [afterCore, Generated.Decisions.generate, generateOn, hp]
+
+/-- the emitted text is fine: `-dry` prints at most; otherwise the file is written first and then
+printed, and a failing write prints nothing -/
+theorem generate_ok_follows_source (cfg : Config) (w1 : World) (bytes : String) (e o : List String) :
+    afterCore cfg (.ok bytes e o) w1 =
+      generateOn cfg w1 "" bytes e o (Generated.Decisions.generate false false cfg.prints false cfg.dryRun
+        (!w1.writable cfg.output)) := by
+  cases hp : cfg.prints <;> cases hd : cfg.dryRun <;> cases hw : w1.writable cfg.output <;>
+    simp [afterCore, Generated.Decisions.generate, generateOn, hp, hd, hw]
 
 end Convergen.Bridge.Decisions
